@@ -4,7 +4,7 @@ import PyramidModel.ViewLookupJson
 /-! Driver for C03: one JSON case per line (see `harness/c03.py: encode_case`).
 in : {"regs":[reg…], "req":request, "cls":0|1}
 out: {"out":[kind,tag?], "spec":[kind,tag?], "derived":[[order,phashText,npreds],…], "coherent":b,
-      "cands":[tag…]} -/
+      "cands":[tag…], "asked":[tag…]}      asked = views whose predicates the lookup evaluates, in order -/
 open Pyr Pyr.ViewLookup Lean
 
 open Pyr.ViewLookup.Drv in
@@ -20,4 +20,5 @@ def main : IO Unit := jsonDriver fun j => do
   return Json.mkObj [
     ("out", outJson out), ("spec", outJson spec), ("derived", Json.arr derived.toArray),
     ("coherent", toJson (coherentB regs)),
-    ("cands", toJson ((candidates regs cls req).map (·.tag)))]
+    ("cands", toJson ((candidates regs cls req).map (·.tag))),
+    ("asked", toJson (callViewAsked (registerAll regs) cls req))]
